@@ -256,3 +256,452 @@ def h_c12(tier, seed, hints):
 @replayer("C12")
 def r_c12(acc, case):
     _c12_case(acc, case)
+
+
+# =============================================================================================== shared helpers
+def small_trees(seed, pl=16384):
+    """a few payload shapes (name, tree) around block / piece boundaries"""
+    c = lambda tag, n: content(seed, tag, n)      # noqa: E731
+    return [
+        ("single.bin", c("s", pl + 5)),
+        ("dirA", {"a.bin": c("a", pl * 2 + 1), "b.txt": c("b", 10), "sub": {"c.dat": c("c", pl), "e": b""}}),
+        ("dirB", {"x": c("x", 3 * pl + 100), "y": c("y", 16383)}),
+    ]
+
+
+def make_metafile(d, name, tree, version, pl=16384, **opts):
+    """create a metafile with the real creators; returns (metafile path, payload path)"""
+    from torrentfile.torrent import TorrentFile, TorrentAssembler
+    p = ref.write_tree(d, name, tree)
+    out = os.path.join(d, f"{name}.v{version}.torrent")
+    kw = dict(path=p, piece_length=pl, progress=0, outfile=out)
+    kw.update(opts)
+    with quiet():
+        if version == 1:
+            t = TorrentFile(**kw)
+        else:
+            t = TorrentAssembler(meta_version=str(version), **kw)
+        t.write()
+    return out, p
+
+
+def load_strict(path):
+    with open(path, "rb") as fh:
+        data = fh.read()
+    return ref.bdecode(data, strict=True), data
+
+
+# =============================================================================================== C07 / C06 (edit part)
+EDIT_FIELDS = ["announce", "url-list", "httpseeds", "comment", "source", "private"]
+EDIT_VALUES = {
+    "announce": [None, "", "http://t1/a", "http://t1/a http://t2/b", ["http://t3/c"], ["http://t3/c", "http://t4/d"]],
+    "url-list": [None, "", "http://w1/x", ["http://w2/y", "http://w3/z"]],
+    "httpseeds": [None, "", "http://h1/x http://h2/y", ["http://h3/z"]],
+    "comment": [None, "", "a comment", "zz & more"],
+    "source": [None, "", "SRC"],
+    "private": [None, "", True],
+}
+CLI_FLAG = {"announce": "--tracker", "url-list": "--web-seed", "httpseeds": "--http-seed", "comment": "--comment",
+            "source": "--source", "private": "--private"}
+
+
+def spec_edit(meta, req):
+    """reference semantics of one edit request on a decoded metafile (bytes keys).  Returns the expected value, with
+    `announce-list` marked unjudged when the tracker is cleared."""
+    import copy
+    m = copy.deepcopy(meta)
+    info = m[b"info"]
+    judged_skip = set()
+    for f, v in req.items():
+        if v is None:
+            continue
+        key = f.encode()
+        target = info if f in ("comment", "source", "private") else m
+        if v == "":
+            target.pop(key, None)
+            if f == "announce":
+                judged_skip.add(b"announce-list")
+            continue
+        if f == "private":
+            info[b"private"] = 1
+        elif f in ("comment", "source"):
+            info[key] = v.encode()
+        else:
+            lst = v.split() if isinstance(v, str) else list(v)
+            lst = [x.encode() for x in lst]
+            if f == "announce":
+                m[b"announce"] = lst[0]
+                m[b"announce-list"] = [lst]
+            else:
+                m[key] = lst
+    return m, judged_skip
+
+
+def same_modulo(a, b, skip):
+    ka = {k for k in a if k not in skip}
+    kb = {k for k in b if k not in skip}
+    return ka == kb and all(a[k] == b[k] for k in ka)
+
+
+def do_edit(route, metafile, req):
+    if route == "library":
+        from torrentfile.edit import edit_torrent
+        args = {k: v for k, v in req.items()}
+        with quiet():
+            edit_torrent(metafile, args)
+    else:
+        from torrentfile.cli import execute
+        argv = ["edit", metafile]
+        for f, v in req.items():
+            if v is None:
+                continue
+            if f == "private":
+                if v is True:
+                    argv.append("--private")
+                continue
+            argv.append(CLI_FLAG[f])
+            if isinstance(v, list):
+                argv.extend(v)
+            elif f in ("announce", "url-list", "httpseeds"):
+                argv.extend(v.split())      # a shell user types the urls as separate words
+            else:
+                argv.append(v)
+        with quiet():
+            execute(argv)
+
+
+def cli_expressible(req):
+    for f, v in req.items():
+        if f == "private" and v == "":
+            return False            # the command line cannot clear the private flag
+        if v == "" and f in ("announce", "url-list", "httpseeds"):
+            return False            # nargs='+' with an empty string: ambiguous, not judged
+    return True
+
+
+def _c07_case(acc, case, check_canonical=False):
+    version, opts, route, reqs = case["version"], case["opts"], case["route"], case["reqs"]
+    with tempdir() as d:
+        name, tree = small_trees(0)[case.get("tree", 1)]
+        mf, _ = make_metafile(d, name, tree, version, **opts)
+        cur, raw0 = load_strict(mf) if not case.get("nonstrict") else (ref.bdecode(open(mf, "rb").read(), strict=False), None)
+        info_hash0 = hashlib.sha1(ref.info_span(open(mf, "rb").read())).digest()
+        hash_must_hold = True
+        skip = set()
+        for i, req in enumerate(reqs):
+            try:
+                do_edit(route, mf, req)
+            except BaseException as e:      # noqa: BLE001
+                acc.fail(f"{case['prop']}:{route}:edit-raised", case, f"{type(e).__name__}: {e}", "edit succeeds")
+                return
+            cur, s2 = spec_edit(cur, req)
+            skip |= s2
+            if any(v is not None for f, v in req.items() if f in ("comment", "source", "private")):
+                hash_must_hold = False
+            data = open(mf, "rb").read()
+            if check_canonical:
+                try:
+                    ref.bdecode(data, strict=True)
+                except ref.NonCanonical as e:
+                    acc.fail(f"C06:{route}:edit-noncanonical", case, str(e), "canonical bencoding after edit")
+                    return
+                continue
+            got = ref.bdecode(data, strict=False)
+            if not same_modulo(got, cur, skip):
+                diff = [k for k in set(got) | set(cur) if k not in skip and got.get(k) != cur.get(k)]
+                idiff = []
+                if b"info" in diff:
+                    gi, ci = got.get(b"info", {}), cur.get(b"info", {})
+                    idiff = [k for k in set(gi) | set(ci) if gi.get(k) != ci.get(k)]
+                acc.fail(f"C07:{route}:wrong-result:{','.join(sorted(x.decode() for x in diff))}:{','.join(sorted(x.decode() for x in idiff))}",
+                         case, f"after request #{i} {req}: top-level keys differing {diff}, info keys differing {idiff}",
+                         "original with each named field set to its last-written value")
+                return
+            if hash_must_hold and hashlib.sha1(ref.info_span(data)).digest() != info_hash0:
+                acc.fail(f"C07:{route}:infohash-changed", case, f"info-hash changed after {req}", "unchanged info-hash")
+                return
+
+
+def _edit_cases(tier, prop):
+    cases = []
+    base_opts = [{}, {"announce": ["http://orig/a", "http://orig/b"], "url_list": ["http://ow/1"], "httpseeds": ["http://oh/1"],
+                      "comment": "orig", "source": "osrc", "private": True}]
+    singles = []
+    for f in EDIT_FIELDS:
+        for v in EDIT_VALUES[f]:
+            if v is not None:
+                singles.append({f: v})
+    pairs = []
+    for a, b in itertools.combinations(EDIT_FIELDS, 2):
+        for va in EDIT_VALUES[a][1:3]:
+            for vb in EDIT_VALUES[b][1:3]:
+                pairs.append({a: va, b: vb})
+    full = {f: EDIT_VALUES[f][-1] for f in EDIT_FIELDS}
+    clear_all = {f: "" for f in EDIT_FIELDS}
+    for version in (1, 2, 3):
+        for oi, opts in enumerate(base_opts):
+            for route in ("library", "cli"):
+                reqsets = [[s] for s in singles] + [[full], [clear_all], [full, clear_all], [clear_all, full]]
+                if tier == "thorough" or version == 1:
+                    reqsets += [[p] for p in pairs]
+                    reqsets += [[s1, s2] for s1 in singles[::3] for s2 in singles[1::4]]
+                else:
+                    reqsets += [[p] for p in pairs[::5]]
+                for reqs in reqsets:
+                    reqs = [dict({f: None for f in EDIT_FIELDS}, **r) for r in reqs]
+                    if route == "cli" and not all(cli_expressible(r) for r in reqs):
+                        continue
+                    cases.append({"prop": prop, "version": version, "opts": opts, "optset": oi, "route": route, "reqs": reqs, "tree": 1})
+    return cases
+
+
+@harness("C07")
+def h_c07(tier, seed, hints):
+    acc = Acc("C07", "edit request sequences over the six fields (unnamed / str / list / cleared) on v1, v2, hybrid metafiles with and "
+              "without the optional fields, through edit_torrent and through the command line; oracle = reference edit on the "
+              "strictly decoded original + info-hash stability; distinct = (version, option set, route, request sequence)",
+              "all single-field requests, all pairs of fields x 2 values, all-set / all-cleared, sequences of length <= 2")
+    for case in _edit_cases(tier, "C07"):
+        _c07_case(acc, case)
+        acc.case(json.dumps([case["version"], case["optset"], case["route"], case["reqs"]], sort_keys=True, default=str),
+                 {"version": case["version"], "route": case["route"], "reqs": case["reqs"]})
+    return acc.result()
+
+
+@replayer("C07")
+def r_c07(acc, case):
+    _c07_case(acc, case)
+
+
+# =============================================================================================== C06
+def structure_issues(meta, version):
+    """structural requirements of C06 on a strictly decoded metafile (bytes keys)"""
+    issues = []
+    info = meta.get(b"info")
+    if not isinstance(info, dict):
+        return ["no info dict"]
+    if not isinstance(info.get(b"name"), bytes) or not isinstance(info.get(b"piece length"), int):
+        issues.append("name / piece length missing")
+    if version in (1, 3):
+        if (b"length" in info) == (b"files" in info):
+            issues.append("exactly one of length / files required")
+        if not isinstance(info.get(b"pieces"), bytes) or len(info[b"pieces"]) % 20:
+            issues.append("pieces must be a string of 20-byte hashes")
+    if version in (2, 3):
+        if info.get(b"meta version") != 2:
+            issues.append("meta version 2 missing")
+        if not isinstance(info.get(b"file tree"), dict):
+            issues.append("file tree missing")
+        pl = meta.get(b"piece layers")
+        if not isinstance(pl, dict):
+            issues.append("top-level piece layers missing")
+        else:
+            for k, v in pl.items():
+                if len(k) != 32 or not isinstance(v, bytes) or len(v) % 32 or not v:
+                    issues.append("piece layers entry malformed")
+    return issues
+
+
+def _c06_case(acc, case):
+    if case.get("reqs") is not None:
+        return _c07_case(acc, case, check_canonical=True)
+    with tempdir() as d:
+        name, tree = c06_trees(case["seed"])[case["tree"]]
+        try:
+            mf, _ = make_metafile(d, name, tree, case["version"], pl=case["pl"], **case["opts"])
+        except BaseException as e:      # noqa: BLE001
+            acc.fail("C06:create-raised", case, f"{type(e).__name__}: {e}")
+            return
+        data = open(mf, "rb").read()
+        try:
+            meta = ref.bdecode(data, strict=True)
+        except ref.NonCanonical as e:
+            where = "piece-layers" if b"piece layers" in data and "ascending" in str(e) else "other"
+            acc.fail(f"C06:create-noncanonical:v{case['version']}", case, str(e)[:300], "canonical bencoding")
+            return
+        iss = structure_issues(meta, case["version"])
+        if iss:
+            acc.fail(f"C06:create-structure:v{case['version']}", case, iss, "structure required by the version")
+
+
+def c06_trees(seed):
+    pl = 16384
+    c = lambda tag, n: content(seed, tag, n)      # noqa: E731
+    many = {f"f{i:02d}": c(f"m{i}", pl * 2 + i * 7 + 1) for i in range(7)}
+    return small_trees(seed) + [("many", many), ("nested", {"z": {"b": c("zb", pl + 1), "a": c("za", 3 * pl)}, "a": c("a", 2 * pl + 5),
+                                                            "é": c("e", 5), "B": c("B", pl * 4)})]
+
+
+@harness("C06")
+def h_c06(tier, seed, hints):
+    acc = Acc("C06", "metafiles written by create (all versions x option combinations x trees with several files larger than a piece) "
+              "and by edit sequences, decoded with a strict canonical decoder; plus the structure each version requires",
+              "5 trees, piece lengths 16K/32K, 4 option sets, 3 versions; edit sequences as in C07")
+    optsets = [{}, {"announce": ["http://t/a"], "comment": "c", "private": True, "source": "s", "url_list": ["http://w"], "httpseeds": ["http://h"]},
+               {"url_list": ["http://w/1", "http://w/2"]}, {"private": True}]
+    for version in (1, 2, 3):
+        for ti in range(5):
+            for pl in ((16384,) if tier == "quick" else (16384, 32768)):
+                for oi, opts in enumerate(optsets):
+                    for sd in ((seed,) if tier == "quick" else (seed, seed + 1, seed + 2)):
+                        case = {"prop": "C06", "version": version, "tree": ti, "pl": pl, "opts": opts, "seed": sd}
+                        _c06_case(acc, case)
+                        acc.case(("create", version, ti, pl, oi, sd), case if ti == 3 else None)
+    for case in _edit_cases("quick", "C06"):
+        if case["route"] == "cli" and tier == "quick" and case["version"] != 3:
+            continue
+        _c06_case(acc, case)
+        acc.case(json.dumps(["edit", case["version"], case["optset"], case["route"], case["reqs"]], sort_keys=True, default=str))
+    return acc.result()
+
+
+@replayer("C06")
+def r_c06(acc, case):
+    _c06_case(acc, case)
+
+
+# =============================================================================================== C17
+class Fault(BaseException):
+    """stands for the process dying at this point"""
+
+
+def _c17_case(acc, case):
+    """inject a fault (OSError, or the process 'dying' = BaseException) at the n-th file-system operation that the edit
+    performs, then look at what is at the metafile path"""
+    import builtins
+    import shutil as _shutil
+    import tempfile as _tempfile
+    import pyben
+    import importlib
+    editmod = importlib.import_module("torrentfile.edit")
+    with tempdir() as d:
+        name, tree = small_trees(0)[case.get("tree", 1)]
+        mf, _ = make_metafile(d, name, tree, case["version"], announce=["http://orig/a"], comment="orig")
+        old = open(mf, "rb").read()
+        counter = {"n": 0}
+        target, kind = case["at"], case["fault"]
+        log = []
+
+        def hit(label):
+            counter["n"] += 1
+            log.append(label)
+            if counter["n"] == target:
+                if kind == "die":
+                    raise Fault(label)
+                raise OSError(28, f"injected fault at {label}")
+
+        real = {"remove": os.remove, "replace": os.replace, "rename": os.rename, "open": builtins.open, "fdopen": os.fdopen,
+                "mkstemp": _tempfile.mkstemp, "copymode": _shutil.copymode, "unlink": os.unlink}
+
+        class W:
+            def __init__(self, f):
+                self._f = f
+
+            def write(self, b):
+                counter["n"] += 1
+                log.append("write")
+                if counter["n"] == target:
+                    if kind == "short":
+                        self._f.write(b[:max(0, len(b) // 2)])
+                        self._f.flush()
+                        raise OSError(28, "injected short write")
+                    if kind == "die":
+                        self._f.write(b[:max(0, len(b) // 2)])
+                        self._f.flush()
+                        raise Fault("write")
+                    raise OSError(28, "injected write fault")
+                return self._f.write(b)
+
+            def __getattr__(self, a):
+                return getattr(self._f, a)
+
+            def __enter__(self):
+                return self
+
+            def __exit__(self, *a):
+                return self._f.__exit__(*a)
+
+        def p_open(file, mode="r", *a, **k):
+            if any(m in mode for m in "wax+"):
+                hit(f"open({mode})")
+                return W(real["open"](file, mode, *a, **k))
+            return real["open"](file, mode, *a, **k)
+
+        def p_fdopen(fd, mode="r", *a, **k):
+            f = real["fdopen"](fd, mode, *a, **k)
+            return W(f) if any(m in mode for m in "wax+") else f
+
+        def wrap(nm):
+            def f(*a, **k):
+                hit(nm)
+                return real[nm](*a, **k)
+            return f
+        patches = [(os, "remove", wrap("remove")), (os, "unlink", wrap("unlink")), (os, "replace", wrap("replace")),
+                   (os, "rename", wrap("rename")), (builtins, "open", p_open), (os, "fdopen", p_fdopen),
+                   (_tempfile, "mkstemp", wrap("mkstemp")), (_shutil, "copymode", wrap("copymode"))]
+        saved = [(o, n, getattr(o, n)) for o, n, _ in patches]
+        outcome = "completed"
+        try:
+            for o, n, f in patches:
+                setattr(o, n, f)
+            try:
+                with quiet():
+                    editmod.edit_torrent(mf, dict(case["req"]))
+            except Fault:
+                outcome = "died"
+            except BaseException as e:      # noqa: BLE001
+                outcome = f"raised {type(e).__name__}"
+        finally:
+            for o, n, f in saved:
+                setattr(o, n, f)
+        nops = counter["n"]
+        if not os.path.isfile(mf):
+            acc.fail(f"C17:{kind}:metafile-missing", case, f"{outcome} at op {target} ({log[-1] if log else '-'}); metafile path is gone",
+                     "complete old or new metafile")
+            return nops
+        now = open(mf, "rb").read()
+        ok = now == old
+        if not ok:
+            try:
+                m = ref.bdecode(now, strict=False)
+                ok = isinstance(m, dict) and b"info" in m and len(now) > 0
+                exp, _ = spec_edit(ref.bdecode(old, strict=False), {k: v for k, v in case["req"].items() if isinstance(v, (str, list, bool, type(None)))})
+                ok = ok and same_modulo(m, exp, set())
+            except Exception:       # noqa: BLE001
+                ok = False
+        if not ok:
+            acc.fail(f"C17:{kind}:metafile-damaged", case, f"{outcome} at op {target} ({log[-1] if log else '-'}); {len(now)} bytes at the path, "
+                     f"neither the old ({len(old)} bytes) nor the complete edited metafile", "complete old or new metafile")
+        elif outcome.startswith("raised") and now != old and target <= nops and case["fault"] != "none":
+            pass
+        return nops
+
+
+@harness("C17")
+def h_c17(tier, seed, hints):
+    acc = Acc("C17", "fault injection into edit_torrent: OSError / short write / process death at the n-th file-system operation "
+              "(open-for-write, write, remove, replace, rename, mkstemp, copymode), n = 1..(number of operations), and un-encodable "
+              "values; afterwards the metafile path must hold the complete old or the complete edited metafile",
+              "3 versions x 4 requests x every operation index x {oserror, short, die}")
+    reqs = [{"comment": "new comment"}, {"announce": ["http://n/1", "http://n/2"], "private": True},
+            {"comment": "", "announce": ""}, {"url-list": "http://w/1 http://w/2", "source": "S"}]
+    bad = [{"comment": 3.5}, {"url-list": [object()]}, {"announce": [b"ok", 1.5]}]
+    for version in (1, 2, 3):
+        for ri, req in enumerate(reqs):
+            n = _c17_case(acc, {"prop": "C17", "version": version, "req": req, "at": 10 ** 6, "fault": "none"}) or 0
+            acc.case(("nofault", version, ri))
+            for at in range(1, n + 1):
+                for kind in ("oserror", "short", "die"):
+                    case = {"prop": "C17", "version": version, "req": req, "at": at, "fault": kind}
+                    _c17_case(acc, case)
+                    acc.case((version, ri, at, kind), case if version == 1 and ri == 0 else None)
+        for bi, req in enumerate(bad):
+            case = {"prop": "C17", "version": version, "req": req, "at": 10 ** 6, "fault": "unencodable"}
+            _c17_case(acc, case)
+            acc.case(("unencodable", version, bi))
+    return acc.result()
+
+
+@replayer("C17")
+def r_c17(acc, case):
+    _c17_case(acc, case)
